@@ -10,7 +10,7 @@ import ast
 import re
 
 from translator.lib import (Unsupported, coq_list, coq_str_list, coq_string, defn, dict_str_str, find_assign,
-                            find_class, find_func, parse, str_elems)
+                            find_class, find_func, fstring_parts, parse, str_elems)
 
 GEN_FILE = "RustSafetyGen"
 HEADER = "From TL Require Import Lib.Base Lib.GenTypes Model.RustSafetyTypes."
@@ -30,6 +30,7 @@ FINGERPRINTS = [
     (BL + "rust_analyzer.py", ["RustBlockingAsyncAnalyzer", "_classify_blocking_pattern", "_is_inside_blocking_wrapper", "_is_wrapper_call",
                                "_child_is_wrapper_name", "_node_text_matches_wrapper", "_scoped_name_matches_wrapper"]),
     (BL + "linter.py", ["BlockingAsyncRule", "_should_skip_call", "_build_violation_for_call"]),
+    ("src/core/linter_utils.py", ["get_line_context"]),
 ]
 
 S = r"'((?:[^'\\]|\\.)*)'"  # a single-quoted string literal as printed by ast.unparse
@@ -201,19 +202,39 @@ def _skip_rules(rel, cls=None):
     return coq_list(rules)
 
 
-def _rule_id(rel, builder):
+def _builder(rel, builder):
+    """(rule id, message prefix) of a violation builder: message = f"<prefix>{context}", line/column passed through"""
     f = find_func(parse(rel), builder)
     kws = [k for n in ast.walk(f) if isinstance(n, ast.Call) and isinstance(n.func, ast.Name) and n.func.id == "Violation"
-           for k in n.keywords if k.arg in ("rule_id", "line", "column")]
+           for k in n.keywords if k.arg in ("rule_id", "line", "column", "message")]
     got = {k.arg: k.value for k in kws}
-    if set(got) != {"rule_id", "line", "column"} or not isinstance(got["rule_id"], ast.Constant) or not isinstance(got["rule_id"].value, str):
-        raise Unsupported(f"{builder}: Violation(rule_id=..., line=..., column=...)")
-    if ast.unparse(got["line"]) != "line" or ast.unparse(got["column"]) != "column":
-        raise Unsupported(f"{builder}: line/column are not passed through unchanged")
+    if set(got) != {"rule_id", "line", "column", "message"} or not isinstance(got["rule_id"], ast.Constant) or not isinstance(got["rule_id"].value, str):
+        raise Unsupported(f"{builder}: Violation(rule_id=..., line=..., column=..., message=...)")
+    if ast.unparse(got["line"]) != "line" or ast.unparse(got["column"]) != "column" or ast.unparse(got["message"]) != "message":
+        raise Unsupported(f"{builder}: line/column/message are not passed through unchanged")
     args = [a.arg for a in f.args.args]
     if args[:4] != ["file_path", "line", "column", "context"]:
         raise Unsupported(f"{builder}: parameter order {args}")
-    return got["rule_id"].value
+    msgs = [st.value for st in f.body if isinstance(st, ast.Assign) and len(st.targets) == 1 and ast.unparse(st.targets[0]) == "message"]
+    if len(msgs) != 1:
+        raise Unsupported(f"{builder}: message assignment")
+    parts = fstring_parts(msgs[0])
+    if len(parts) != 2 or parts[0][0] != "lit" or parts[1] != ("var", "context"):
+        raise Unsupported(f"{builder}: message is not f\"<text>{{context}}\"")
+    return got["rule_id"].value, parts[0][1]
+
+
+def _rule_id(rel, builder):
+    return _builder(rel, builder)[0]
+
+
+def line_context():
+    """get_line_context: the stripped text of row `line_index` of code.split("\\n")"""
+    m = tmpl("src/core/linter_utils.py", "get_line_context",
+             r"lines = code\.split\(" + S + r"\)\nif 0 <= line_index < len\(lines\):\n    return lines\[line_index\]\.strip\(\)\nreturn ''")
+    if lit(m.group(1)) != "\n":
+        raise Unsupported("line separator")
+    return defn("line_context_strips", "bool", "true")
 
 
 def unwrap_linter():
@@ -226,7 +247,9 @@ def unwrap_linter():
     return (defn("unwrap_skip_rules", "list (list skip_atom)", rules)
             + defn("unwrap_builder_method", "string", coq_string(lit(m.group(1))))
             + defn("unwrap_rule_then", "string", coq_string(_rule_id(UW + "violation_builder.py", m.group(2))))
-            + defn("unwrap_rule_else", "string", coq_string(_rule_id(UW + "violation_builder.py", m.group(3)))))
+            + defn("unwrap_rule_else", "string", coq_string(_rule_id(UW + "violation_builder.py", m.group(3))))
+            + defn("unwrap_msg_then", "string", coq_string(_builder(UW + "violation_builder.py", m.group(2))[1]))
+            + defn("unwrap_msg_else", "string", coq_string(_builder(UW + "violation_builder.py", m.group(3))[1])))
 
 
 def _config(rel, cls, name):
@@ -341,13 +364,15 @@ def _pattern_dicts(rel, vb, prefix):
     for k, v in zip(b.keys, b.values):
         if not (isinstance(k, ast.Constant) and isinstance(k.value, str) and isinstance(v, ast.Name)):
             raise Unsupported("_PATTERN_BUILDERS entry")
-        rules.append((k.value, _rule_id(vb, v.id)))
+        rules.append((k.value, _rule_id(vb, v.id), _builder(vb, v.id)[1]))
     m = tmpl(rel, "_build_violation_for_call",
              r"builder = _PATTERN_BUILDERS\.get\(call\.pattern, (\w+)\)\nreturn builder\(file_path, call\.line, call\.column, call\.context\)")
     tmpl(rel, "_build_violations", r"return \[_build_violation_for_call\(call, file_path\) for call in calls if not _should_skip_call\(call, config\)\]")
     return (defn(prefix + "_pattern_keys", "list (string * string)", coq_list([f"({coq_string(a)}, {coq_string(c)})" for a, c in keys]))
-            + defn(prefix + "_pattern_rules", "list (string * string)", coq_list([f"({coq_string(a)}, {coq_string(c)})" for a, c in rules]))
+            + defn(prefix + "_pattern_rules", "list (string * string)", coq_list([f"({coq_string(a)}, {coq_string(c)})" for a, c, _ in rules]))
             + defn(prefix + "_default_rule", "string", coq_string(_rule_id(vb, m.group(1))))
+            + defn(prefix + "_pattern_msgs", "list (string * string)", coq_list([f"({coq_string(a)}, {coq_string(c)})" for a, _, c in rules]))
+            + defn(prefix + "_default_msg", "string", coq_string(_builder(vb, m.group(1))[1]))
             + defn(prefix + "_skip_rules", "list (list skip_atom)", _skip_rules(rel)))
 
 
@@ -469,6 +494,7 @@ def blocking_config():
 
 
 ITEMS = [
+    ("line_context", line_context),
     ("ctx_attr_walks", ctx_attr_walks),
     ("ctx_dispatch", ctx_dispatch),
     ("ctx_async", ctx_async),
